@@ -45,6 +45,12 @@ def body(run):
             g = synth.aligned_geom(rng, run.scale(40, 56))
             model, mkind, proc, nblk_target, kshape = 'gain-blk-offset', 'sparse-block', 'auto', rng.choice([16, 32]), rng.choice([(3, 3), (5, 5)])
         pair = fz.make_pair(run.work, g, rng, smask=fz.src_mask(rng, g.src_shape, mkind), tag='c')
+        if gi % 8 == 5:
+            # ... and a reference that is flat over a whole corner of the image (a saturated or filled area): blocks there have no block
+            # normalisation of their own - whatever they get instead must not come from whichever block happened to be fitted before them
+            ref_ = pair['ref'].copy()
+            ref_[:, ref_.shape[1] // 2:, ref_.shape[2] // 2:] = 150
+            pair = fz.make_pair(run.work, g, rng, src=pair['src'], ref=ref_, smask=pair['smask'], tag='c')
         try:
             mbm, _nb = fz.pick_block_mem(pair['src_fn'], pair['ref_fn'], proc, nblk_target, kshape)
             kw = dict(model=model, kernel_shape=kshape, proc_crs=proc, max_block_mem=mbm, param=with_param)
